@@ -24,6 +24,10 @@ RULE = ("requests and responses, 1-3 pipelined: start line (9 methods, HTTP/1.0,
         "one fragment per service() pass, the 2nd..kth request cut at arbitrary points (line boundaries, head "
         "complete / body pending, inside chunks) with idle passes in between; what the application was handed "
         "(method, target, body) and the response byte stream must equal those of request-by-request delivery.  "
+        "Idle prefix: the armed parser is polled 0-4 times with nothing buffered and close() is called at any point "
+        "of that idle time (as Client.service does while cut off), then 1-3 messages (chunked, content-length, "
+        "body-less, close-delimited) arrive cut at line ends, chunk boundaries, random points or every byte; the "
+        "result must equal the one-shot parse after the same prefix.  "
         "Non-trivial: >= 3 reads with at "
         "least one cut inside a line terminator, a chunk-size line or a body")
 MODELLED = ["Python generators of parseMessage/parseHead/parseBody (as one explicit stage machine)",
@@ -186,7 +190,18 @@ def srv_reference_frags(case):
     return out
 
 
+def idle_ops(case, reads):
+    ops = [list(o) for o in case["prefix"]]
+    for r in reads:
+        ops += [["data", r], ["parse"]]
+    if case.get("final_close"):
+        ops += [["close"], ["parse"]]
+    return ops
+
+
 def run_impl(case):
+    if case["kind"] == "idle":
+        return K.run_hist(case["who"], idle_ops(case, case["reads"]))
     if case["kind"] == "server":
         return run_server(srv_frags(case))
     return run_reads(case["kind"], [unh(x) for x in case["reads"]], case.get("close", False))
@@ -218,7 +233,32 @@ def oracle_server(case, obs):
     return None
 
 
+def oracle_idle(case, obs):
+    whole = K.run_hist(case["who"], idle_ops(case, ["".join(case["reads"])]))
+    a, b = _strip_left_on_error(obs), _strip_left_on_error(whole)
+    if a != b:
+        if a["err"] != b["err"] or a["errtext"] != b["errtext"]:
+            return (f"after an idle prefix with close(), the fragmented message ends with {a['err']} ({a['errtext']}), "
+                    f"the same bytes in one read with {b['err']} ({b['errtext']})")
+        if len(a["msgs"]) != len(b["msgs"]):
+            return f"split parsed {len(a['msgs'])} messages, one read {len(b['msgs'])}"
+        for i, (x, y) in enumerate(zip(a["msgs"], b["msgs"])):
+            for key in x:
+                if x[key] != y[key]:
+                    return f"message {i} attribute {key}: split {x[key]!r} vs one read {y[key]!r}"
+        return f"split vs one read differ in leftover: {a['left']!r} vs {b['left']!r}"
+    exp = case.get("expect")
+    if exp is not None:
+        if obs["err"] is not None:
+            return f"healthy message after an idle prefix rejected: {obs['errtext']}"
+        if [m["body"] for m in obs["msgs"]] != [e["body"] for e in exp]:
+            return f"bodies {[m['body'][:40] for m in obs['msgs']]} decoded, {[e['body'][:40] for e in exp]} sent"
+    return None
+
+
 def oracle(case, obs):
+    if case["kind"] == "idle":
+        return oracle_idle(case, obs)
     if case["kind"] == "server":
         return oracle_server(case, obs)
     reads = [unh(x) for x in case["reads"]]
@@ -427,6 +467,19 @@ def directed():
         out.append({"kind": "req", "reads": [h(x) for x in K.cut(w, cuts)], "close": False})
     out.append({"kind": "req", "reads": [], "close": True})
     out.append({"kind": "resp", "reads": [h(b"")], "close": True})
+    # armed parser polled idle, close() during the idle time, then a message in fragments (seeded C13-8 = revert of 0a30e14)
+    for who, w in (("resp", b"HTTP/1.1 200 OK\r\nContent-Length: 2\r\n\r\nok"),
+                   ("resp", b"HTTP/1.1 200 OK\r\nTransfer-Encoding: chunked\r\n\r\n2\r\nab\r\n3\r\ncde\r\n0\r\n\r\n"),
+                   ("resp", b"HTTP/1.0 200 OK\r\n\r\nuntil close"),
+                   ("req", b"POST / HTTP/1.1\r\nContent-Length: 2\r\n\r\nok"),
+                   ("req", b"POST / HTTP/1.1\r\nTransfer-Encoding: chunked\r\n\r\n2\r\nab\r\n3\r\ncde\r\n0\r\n\r\n"),
+                   ("req", b"GET / HTTP/1.1\r\nHost: h\r\n\r\n")):
+        fc = w.startswith(b"HTTP/1.0")
+        lines = [i + 2 for i in range(len(w) - 2) if w[i:i + 2] == b"\r\n"]
+        for prefix in ([["parse"], ["close"], ["parse"], ["close"]], [["close"]], [["parse"], ["parse"], ["close"], ["parse"]]):
+            for cuts in ([], lines[:1], lines, list(range(1, len(w)))):
+                out.append({"kind": "idle", "who": who, "prefix": prefix, "reads": [h(x) for x in K.cut(w, cuts)],
+                            "final_close": fc, "expect": None})
     # the real server: second request of a keep-alive connection spanning several service() passes (seeded C13-5)
     two = [{"method": "GET", "body": ["none"]}, {"method": "POST", "body": ["len", h(b"hello")]},
            {"method": "POST", "body": ["chunked", [h(b"ab"), h(b"cde")]]}]
@@ -487,9 +540,50 @@ def _gen_server(rng):
     return _srv_case(reqs, cuts, idles)
 
 
+def _idle_prefix(rng):
+    """0-4 polls of the armed parser with nothing buffered, close() at any point(s) of that time"""
+    ops = []
+    for _ in range(rng.choice([0, 1, 2, 3, 4])):
+        ops.append(["parse"])
+        if rng.random() < 0.5:
+            ops.append(["close"])
+    if rng.random() < 0.3:
+        ops.insert(0, ["close"])
+    if ["close"] not in ops and rng.random() < 0.8:
+        ops.insert(rng.randrange(len(ops) + 1), ["close"])
+    return ops
+
+
+def _idle_cuts(rng, wire):
+    r = rng.random()
+    lines = [i + 2 for i in range(len(wire) - 2) if wire[i:i + 2] == b"\r\n"]
+    if r < 0.35 and lines:
+        return rng.sample(lines, k=min(len(lines), rng.choice([1, 2, 3, 6])))
+    if r < 0.55:
+        return list(range(1, len(wire))) if len(wire) < 300 else lines
+    if r < 0.65:
+        return lines
+    return [rng.randrange(1, len(wire)) for _ in range(rng.choice([1, 2, 4]))]
+
+
+def _gen_idle(rng):
+    who = rng.choice(["req", "resp", "resp"])
+    nmsg = rng.choice([1, 1, 2, 3])
+    wire, expects, until = b"", [], False
+    for n in range(nmsg):
+        last = n == nmsg - 1
+        w, e = K._gen_one_message(rng, who, n, allow_until=(who == "resp" and last and rng.random() < 0.4))
+        until = until or w.startswith(b"HTTP/1.0 200 OK\r\n\r\n")
+        wire += w
+        expects.append(e)
+    return {"kind": "idle", "who": who, "prefix": _idle_prefix(rng), "reads": [h(x) for x in K.cut(wire, _idle_cuts(rng, wire))],
+            "final_close": until or rng.random() < 0.3, "expect": expects}
+
+
 def generate(rng, tier):
-    n_wf, n_mal, n_srv = (450, 250, 200) if tier == "quick" else (4500, 2500, 2000)
-    return [_gen_wf(rng) for _ in range(n_wf)] + [_gen_mal(rng) for _ in range(n_mal)] + [_gen_server(rng) for _ in range(n_srv)]
+    n_wf, n_mal, n_srv, n_idle = (450, 250, 200, 250) if tier == "quick" else (4500, 2500, 2000, 2500)
+    return ([_gen_wf(rng) for _ in range(n_wf)] + [_gen_mal(rng) for _ in range(n_mal)] +
+            [_gen_server(rng) for _ in range(n_srv)] + [_gen_idle(rng) for _ in range(n_idle)])
 
 
 # ----------------------------------------------------------------------------- Gallina
@@ -510,6 +604,9 @@ def coq_omsg(m):
 
 
 def to_coq(case, obs):
+    if case["kind"] == "idle":
+        t = K.to_coq({"kind": "hist", "who": case["who"], "ops": idle_ops(case, case["reads"])}, obs)
+        return t.replace("(HttpMsg.KHist ", "(HttpMsg.KIdle ", 1)
     if case["kind"] == "server":
         hb = K.coq_hexbytes
         seen = coq_list([f"({coq_bytes(c[0].encode('latin-1'))}, {coq_bytes(c[1].encode('latin-1'))}, {hb(c[2])})" for c in obs["calls"]],
@@ -528,6 +625,8 @@ def _to_coq_msg(case, obs):
 
 
 def nontrivial(case, obs):
+    if case["kind"] == "idle":
+        return ["close"] in case["prefix"] and len(case["reads"]) >= 2 and len(obs.get("msgs", [])) >= 1
     if case["kind"] == "server":
         return len([f for f in case["frags"] if f]) >= 3 and len(obs.get("calls", [])) >= 2
     reads = [unh(x) for x in case["reads"]]
@@ -547,6 +646,11 @@ def classify(case, obs, why):
 
 
 def shrink(case):
+    if case["kind"] == "idle":
+        r = case["reads"]
+        for i in range(len(r) - 1):
+            yield dict(case, reads=r[:i] + [r[i] + r[i + 1]] + r[i + 2:], expect=None)
+        return
     if case["kind"] == "server":
         fr = case["frags"]
         for i in range(len(fr) - 1):
@@ -568,6 +672,7 @@ def distribution(cases, obs):
             msgs += len(o["calls"])
         closes += 1 if c.get("close") else 0
     nreads = sorted(len(c["reads"]) if "reads" in c else len(c["frags"]) for c in cases)
+    kinds["idle_prefix_with_close"] = sum(1 for c in cases if c["kind"] == "idle" and ["close"] in c["prefix"])
     return {"kinds": kinds, "messages_parsed": msgs, "errored": errs, "closed": closes,
             "reads_median": nreads[len(nreads) // 2], "reads_max": nreads[-1]}
 
